@@ -860,6 +860,23 @@ func Store(a, i, v *Term) *Term {
 	if i.w != 64 || v.w != 8 {
 		panic("store widths")
 	}
+	// drop an older store to the same address when every store above it is provably at a
+	// different address (keeps chains as short as the number of distinct addresses)
+	var above []*Term
+	for cur := a; cur.op == OpStore; cur = cur.args[0] {
+		e := Eq(cur.args[1], i)
+		if e == TrueT {
+			base := cur.args[0]
+			for k := len(above) - 1; k >= 0; k-- {
+				base = mk(OpStore, -1, 0, "", base, above[k].args[1], above[k].args[2])
+			}
+			return mk(OpStore, -1, 0, "", base, i, v)
+		}
+		if e != FalseT || len(above) > 256 {
+			break
+		}
+		above = append(above, cur)
+	}
 	return mk(OpStore, -1, 0, "", a, i, v)
 }
 
